@@ -332,8 +332,14 @@ class ctx:
         Check if current asyncio task is cancelled, raises CancelledError if so.
         """
 
+        try:
+            task: Task[Any] | None = current_task()
+
+        except RuntimeError:
+            return  # no event loop running in this thread (i.e. executor thread) - there is no task
+
         # running task is never in cancelled state yet - check for pending cancellation requests
-        if (task := current_task()) and (task.cancelled() or task.cancelling() > 0):
+        if task and (task.cancelled() or task.cancelling() > 0):
             raise CancelledError()
 
     @staticmethod
